@@ -312,7 +312,14 @@ def run(v, tier, seed, g):
         v.violation(f"optimizer-model:{cid}", f"optimizer.optimize returns a different tree than the model Opt.optimize on call {mm['call']} of case {cid}; "
                     "the kernels with the passes on and off were compared and no differing tensor was found",
                     {"case": cid, "call": mm["call"], "broken_obligation": "correspondence Opt.optimize = optimizer.optimize (harness/optcorr.py)"}, no_input=True)
-    v.notes["optimizer_model"] = {k: oc[k] for k in ("cases", "calls", "matched", "changed", "unsupported", "kinds")}
+    v.oblige(oc.get("desugar_equal", 0) == oc.get("desugar_compared", 0), max(oc.get("desugar_compared", 0), 1))
+    if oc.get("desugar_equal", 0) != oc.get("desugar_compared", 0):
+        v.violation("optimizer-model-desugar", "Opt.desugar (Section = declarations ; { statements }) differs from the exporter's desugaring of the same code list",
+                    {"compared": oc.get("desugar_compared"), "equal": oc.get("desugar_equal")}, no_input=True)
+    v.notes["optimizer_model"] = {k: oc.get(k) for k in ("cases", "calls", "matched", "changed", "unsupported", "kinds", "desugar_compared", "desugar_equal",
+                                                         "side_condition_true", "side_condition_false", "side_condition_false_calls")}
+    v.notes["optimizer_model"]["meaning"] = ("matched: Opt.optimize returns the tree optimizer.optimize returned (node by node); side_condition_true: OptSound.opt_ok holds for the "
+                                             "captured input, so section and loop fusion are PROVED to refine it for all inputs (C17_section_and_loop_fusion_preserve_the_kernel_body)")
     # ---- LN.exec itself against gcc (ties the semantics every AST theorem rests on) ------------
     xc = execcorr.run(corpus.PINNED + corpus.random_cases(seed + 1, 10 if tier == "quick" else 200), "C17x", seed)
     v.oblige(xc["agree"] == xc["compared"], max(xc["compared"], 1))
